@@ -73,8 +73,14 @@ class Space:
         return full[self.mask], float(np.linalg.norm(full[~self.mask]))
 
     def same_legs(self, a, ref):
-        return a.get_leg_labels() == ref.get_leg_labels() and all(x.test_equal(y) is None for x, y in zip(a.legs, ref.legs)) \
-            and np.array_equal(a.qtotal, ref.qtotal)
+        if a.get_leg_labels() != ref.get_leg_labels() or not np.array_equal(a.qtotal, ref.qtotal):
+            return False
+        try:
+            for x, y in zip(a.legs, ref.legs):
+                x.test_equal(y)
+        except ValueError:
+            return False
+        return True
 
     # -- operators
     def full_matrix(self, M):
